@@ -113,4 +113,8 @@ theorem where_zero_dtypes_eq : where_zero_dtypes =
 /-- `ApplyZeroPadding.__call__` reads and writes the configured `kspace_key` / `padding_key` and nothing else -/
 theorem apply_zero_padding_plan_eq : apply_zero_padding_plan = [true, true, true, true, true] := by decide
 
+/-- every masking site outside the listed alternatives is **unconditional**: no `where` / `apply_mask` / masked-operator
+call of a block sits under an `if` or a flag of its function (helpers inlined) -/
+theorem nn_conditional_sites_eq : nn_conditional_sites = expectedConditionalSites := by decide +kernel
+
 end DirectVerif.Bridge.C03
